@@ -142,6 +142,15 @@ def run(run_):
         return
     res = out["results"]
     errkinds = collections.Counter()
+    # same bytes, same answer: every input is parsed a second time after all the others (see the harness)
+    for i in (out.get("unstable") or [])[:3]:
+        c = cases[i]
+        run_.violation("ParseData gives a different result for %s when the same bytes are parsed again after other files of this run (first call: %s): "
+                       "what an accepted file says may not depend on what was parsed before" % (c["label"], res[i]["class"]),
+                       {"call": "config.ParseData (twice, other inputs in between)", "toml": c["text"].decode("utf-8", "replace"),
+                        "toml_base64": base64.b64encode(c["text"]).decode(), "case": c["label"], "first_result": res[i]["class"],
+                        "history": "all %d inputs of this run in order, then this input again" % len(cases)})
+    run_.coverage["inputs_parsed_twice"] = out.get("rerun", 0)
 
     def replay_of(c, r, **kw):
         d = {"call": "config.ParseData", "toml": c["text"].decode("utf-8", "replace"),
